@@ -52,6 +52,8 @@ def run_case(cs, ctx):
                     v['llq'] = min(v['llq'], v['lt'])
     else:
         v = ge.legal_vector(rng)
+        if rng.random() < 0.05:
+            v['numinst'] = rng.randint(10, 13)      # two-digit file names
     outdir = ge.fresh_outdir(ctx.workdir, 'c08')
     argv = ge.to_argv(v, outdir, rng)
     case = {'cs': cs, 'vector': v, 'argv': [a if a != outdir else '<outdir>' for a in argv]}
